@@ -73,7 +73,7 @@ def run(tier, seed):
     if not tie_ok:
         tie_broken.append('translator failed closed: ' + tout[-400:])
     kf_idx = []
-    if proof['ok']:
+    if proof['ok'] or proof['extra_ok']:
         kf_idx = common.run_cases(PID, 'corr', PRE, cases, 'pcorr_ok', shard=60)
         rf = common.run_cases(PID, 'read', PRE, cases, 'reading_opt_exact', shard=10)
         sf = common.run_cases(PID, 'wc', PRE, cases, 'wc_opt_exact', shard=10)
@@ -97,7 +97,7 @@ def run(tier, seed):
         stale = [f['id'] for f in findings if f['id'] not in known_hits and any(f['id'] in m['known'] for m in meta)]
         if stale:
             rep.notes.append('known findings that no generated specification reproduced in this run: %r' % stale)
-    else:
+    if not proof['ok']:
         tie_broken.append('theorem file does not build: %s | %s' % (proof['failed_at'], proof['log'][-300:]))
     if proof['bad']:
         tie_broken.append('forbidden tokens: %r' % proof['bad'])
